@@ -1,5 +1,6 @@
 (* C02 -- canonicalisation preserves content.  ONLY statements closed by `exact`. *)
-From OV Require Import Base.Strs Syn.Escape Syn.Quote Syn.Ast Syn.Emitter Syn.Wf Lex.Pins_Lexer Gen.LexerGen.
+From OV Require Import Base.Strs Syn.Escape Syn.Quote Syn.Ast Syn.Emitter Syn.Wf Lex.Pins_Lexer Gen.LexerGen
+     Lex.Lexer Syn.Parser Rt.TokRound Rt.TokRoundEx.
 
 (* the line structure of a text made of newline-free lines is recovered exactly by splitting *)
 Theorem C02_lines_recoverable : forall ls : list str, ls <> [] ->
@@ -19,3 +20,33 @@ Proof.
   exact (conj pin_lexer_token_patterns (conj pin_lexer_ascii_aliases (conj pin_lexer_operator_chars
         (conj pin_lexer_wrong_case pin_lexer_fence_pattern)))).
 Qed.
+
+(* STRUCTURE AT EVERY DEPTH (parser half of parse(emit d) = d).  For every core document -- envelope, optional
+   grammar sentinel and separator, assignments of one-token scalars and non-empty blocks nested to ANY depth --
+   every token stream laid out as the emitter lays it out (one node per line, INDENT count 2*depth; positions
+   and payloads of structural tokens arbitrary) is read back by the parser model as exactly that document:
+   names, keys, nesting, order, values and their kinds.  The lexer half (tokenize (emit d) has that shape) is
+   C02_core_example_lexes for a concrete nested document and the per-run correspondence for generated ones. *)
+Theorem C02_core_readback_all_depths :
+  forall numcanon holo_ok strict sp alpha d,
+    core_doc d = true -> nums_ok_l numcanon (dsections d) ->
+    forall st0 ts tail, tail <> [] -> Forall2 tmatch ts (doc_sh d) -> ptoks st0 = ts ++ tail ->
+    exists st', parse_document numcanon holo_ok strict sp alpha st0 = POk d st' /\ wext st0 st'.
+Proof. exact parse_core_doc. Qed.
+
+(* non-vacuity: a 4-level document with a duplicate key, every scalar kind, a sentinel and a separator is core,
+   its emitted text lexes (model lexer) to the shape above with no repair, and the full model reads it back *)
+Theorem C02_core_example_is_core : core_doc ex_doc = true /\ nums_ok_l ex_numcanon (dsections ex_doc).
+Proof. exact (conj ex_core ex_nums_ok). Qed.
+Theorem C02_core_example_lexes :
+  match tokenize ex_cls false ex_lines with
+  | LexOk toks reps => all2 tmatchb toks (doc_sh ex_doc ++ [(NEWLINE, None); (EOF, None)]) = true /\ reps = []
+  | _ => False
+  end.
+Proof. exact ex_lexes_to_shape. Qed.
+Theorem C02_core_example_text_roundtrip :
+  match parse_model ex_cls ex_numcanon (fun _ => false) true ex_lines with
+  | PRDoc d reps warns => d = ex_doc /\ reps = [] /\ map wsub warns = [5]
+  | _ => False
+  end.
+Proof. exact ex_text_roundtrip. Qed.
